@@ -14,15 +14,23 @@
 From Coercion.Base Require Import Plan.
 From Coercion.Select Require Import Rows Select SelectSpec.
 
+(* o_order: which rows of the plan (positions in walk order, 0 = the plan row) the Update* calls the vault
+            saw for this plan rewrote, in the order of the calls (cut off after twice the plan's size) *)
 Record pobs := { o_same : bool; o_reason : reason; o_states : list (option state);
-                 o_calls : nat; o_writes : nat }.
+                 o_calls : nat; o_writes : nat; o_order : list nat }.
 
 (* k_vault: 0 = the Vault does not implement storage.Recovery; 1 = it does, and Recovery() was called
             before any Search / Read / Update*; 2 = it does, but it was used before Recovery() had run
             (or Recovery() was never called)
    k_stale: ids its search index lists as Running although the plan rows are terminal, until Recovery() *)
 Record case := { k_t0 : Z; k_t1 : Z; k_maxage : Z; k_recovery : bool;
-                 k_store : list plan; k_obs : list pobs; k_vault : nat; k_stale : list N }.
+                 k_store : list plan; k_obs : list pobs; k_vault : nat; k_stale : list N;
+                 k_crash : nat; k_t2 : Z; k_t3 : Z }.
+(* k_crash = j > 0: "crash during the close".  A first incarnation ran coercion.New on k_store during
+   [k_t0, k_t1] through a vault that let only the first j Update* calls through (the process died after
+   the j-th write of start-up recovery); a second incarnation then ran coercion.New on what that left,
+   normally, during [k_t2, k_t3].  k_obs is the store after the second incarnation; o_calls counts both
+   incarnations, o_writes / o_order the second.  k_crash = 0: one incarnation, k_t2 = k_t0, k_t3 = k_t1. *)
 
 Fixpoint list_eqb {A} (eqb : A -> A -> bool) (a b : list A) : bool :=
   match a, b with
@@ -68,7 +76,9 @@ Definition is_in (id : N) (l : list N) : bool := existsb (N.eqb id) l.
      6 observation list and store have different lengths
      7 a plan the model resumes was closed with reason ExceedRecovery instead
      8 the Vault implements storage.Recovery but was used before Recovery() had been called
-     9 the decision differs between now = k_t0 and now = k_t1 (inconclusive: New took too long) *)
+     9 the decision differs between now = k_t0 and now = k_t1 (inconclusive: New took too long)
+    10 the Update* calls that closed an aged plan are not the model's write list (the plan row, then every
+       other row in walk order) *)
 (* the stored reason became ExceedRecovery: only start-up recovery's agedOut writes that reason *)
 Definition closed_by_recovery (p : plan) (o : pobs) : bool :=
   reason_eqb (o_reason o) FRExceedRecovery && negb (reason_eqb (p_reason p) FRExceedRecovery).
@@ -83,37 +93,48 @@ Definition aged_like (p : plan) (o : pobs) : bool :=
   head_failed (o_states o) && Nat.eqb (o_calls o) 0 && Nat.ltb 0 (o_writes o)
   && Nat.leb (o_writes o) (length (rows_plan p)) && reason_eqb (o_reason o) FRUnknown.
 
-Definition plan_code (c : case) (resumed : list N) (p p' : plan) (o : pobs) : nat :=
+(* p0: the plan before the first incarnation; p: before the (last) incarnation that was observed;
+   p': the model's plan after it *)
+Definition plan_code (c : case) (resumed : list N) (p0 p p' : plan) (o : pobs) : nat :=
+  let seen := norm_states (k_t2 c) (k_t3 c) (map row_state (rows_plan p))
+                (norm_states (k_t0 c) (k_t1 c) (map row_state (rows_plan p0)) (o_states o)) in
+  let touched := negb (list_eqb ostate_eqb (map row_state (rows_plan p')) (map row_state (rows_plan p))
+                       && reason_eqb (p_reason p') (p_reason p)) in
   if is_in (pid p) resumed then
     (if closed_by_recovery p o || aged_like p o then 7
      else if Nat.ltb 0 (o_calls o + o_writes o) then 0 else 3)
   else if negb (o_same o) then 5
-  else if negb (list_eqb ostate_eqb (map row_state (rows_plan p'))
-                         (norm_states (k_t0 c) (k_t1 c) (map row_state (rows_plan p)) (o_states o))
+  else if negb (list_eqb ostate_eqb (map row_state (rows_plan p')) seen
                 && reason_eqb (p_reason p') (o_reason o)) then 1
   else if Nat.ltb 0 (o_calls o) then 2
-  else if list_eqb ostate_eqb (map row_state (rows_plan p')) (map row_state (rows_plan p))
-          && reason_eqb (p_reason p') (p_reason p) && Nat.ltb 0 (o_writes o) then 4
+  else if negb touched && Nat.ltb 0 (o_writes o) then 4
+  else if touched && negb (list_eqb Nat.eqb (o_order o) (seq 0 (length (rows_plan p)))) then 10
   else 0.
 
-Fixpoint first_code (c : case) (resumed : list N) (i : nat) (s s' : list plan) (os : list pobs) : nat * nat :=
-  match s, s', os with
-  | [], [], [] => (0, 0)
-  | p :: s, p' :: s', o :: os =>
-      match plan_code c resumed p p' o with
-      | 0 => first_code c resumed (S i) s s' os
+Fixpoint first_code (c : case) (resumed : list N) (i : nat) (s0 s s' : list plan) (os : list pobs) : nat * nat :=
+  match s0, s, s', os with
+  | [], [], [], [] => (0, 0)
+  | p0 :: s0, p :: s, p' :: s', o :: os =>
+      match plan_code c resumed p0 p p' o with
+      | 0 => first_code c resumed (S i) s0 s s' os
       | n => (n, i)
       end
-  | _, _, _ => (6, i)
+  | _, _, _, _ => (6, i)
   end.
 
 Definition model_code (c : case) : nat * nat :=
-  let v := {| v_plans := k_store c; v_stale := k_stale c |} in
   let impl := negb (Nat.eqb (k_vault c) 0) in
-  let r0 := open_workstream (k_t0 c) (k_t0 c) (k_maxage c) (k_recovery c) impl v in
-  let r1 := open_workstream (k_t1 c) (k_t0 c) (k_maxage c) (k_recovery c) impl v in
+  (* the store the observed incarnation started from *)
+  let s1 := match k_crash c with
+            | 0 => k_store c
+            | j => if k_recovery c then crash_during_close j (k_t0 c) (k_t0 c) (k_maxage c) (k_store c)
+                   else k_store c
+            end in
+  let v := {| v_plans := s1; v_stale := k_stale c |} in
+  let r0 := open_workstream (k_t2 c) (k_t2 c) (k_maxage c) (k_recovery c) impl v in
+  let r1 := open_workstream (k_t3 c) (k_t2 c) (k_maxage c) (k_recovery c) impl v in
   if negb (list_eqb N.eqb (snd r0) (snd r1)) then (9, 0)
-  else match first_code c (snd r0) 0 (k_store c) (fst r0) (k_obs c) with
+  else match first_code c (snd r0) 0 (k_store c) s1 (fst r0) (k_obs c) with
        | (0, _) => if Nat.eqb (k_vault c) 2 then (8, 0) else (0, 0)
        | r => r
        end.
@@ -132,12 +153,20 @@ Definition not_running (st : option state) : bool :=
        nothing but states and reason changed
      - Running and live (at k_t1 still): resumed, and not closed as ExceedRecovery
      - the boundary falls inside [k_t0, k_t1]: no verdict *)
+Definition head_is_0 (l : list nat) : bool := match l with 0 :: _ => true | _ => false end.
+
+(*   - crash during the close (k_crash > 0): "nothing left Running" is not demanded of a close that was cut
+       short; the plan must still be Failed / ExceedRecovery, never executed, and not written again *)
 Definition mon_plan (c : case) (p : plan) (o : pobs) : bool :=
   if negb (k_recovery c) || negb (is_runningb p) then
     unchanged p o && Nat.eqb (o_calls o) 0 && Nat.eqb (o_writes o) 0
   else if is_staleb (k_t0 c) (k_maxage c) p then
     o_same o && reason_eqb (o_reason o) FRExceedRecovery && head_failed (o_states o)
-    && forallb not_running (o_states o) && Nat.eqb (o_calls o) 0
+    && Nat.eqb (o_calls o) 0
+    && (match k_crash c with
+        | 0 => forallb not_running (o_states o) && head_is_0 (o_order o)   (* closed plan row first *)
+        | _ => Nat.eqb (o_writes o) 0
+        end)
   else if negb (is_staleb (k_t1 c) (k_maxage c) p) then
     Nat.ltb 0 (o_calls o + o_writes o) && negb (closed_by_recovery p o || aged_like p o)
   else true.
